@@ -31,11 +31,31 @@ def triage(R, reg, nat, known_native_prefixes=()):
     return unexpected
 
 
+def constructor_keep_keys(R, reg, src, prop):
+    """solver_dict_keep_keys as the real RungeKuttaIntegrator.__init__ builds it, for every shipped Runge-Kutta class (explicit and
+    implicit classes keep different sets); the constructor obligations of props/ctor.py are generated on the way."""
+    from . import ctor, e2common
+    d = e2common.load_tables(R)
+    keep = {}
+    for name in d["explicit"] + d["implicit"]:
+        m = d["methods"][name]
+        if m["kind"] != "rk":
+            continue
+        r = ctor.check_rk_init(reg, src, prop, name, m)
+        if r["keep_keys"] is not None and r["flags"] is not None:
+            keep.setdefault(not r["flags"]["explicit"], set()).add(r["keep_keys"])
+    R.under_contract(src.func(ctor.FT, "RungeKuttaIntegrator.__init__"))
+    R.under_contract(src.func(ctor.FT, "TableauIntegrator.__init__"))
+    return keep
+
+
 def integrator_contracts(R, reg, src, prop):
     R.under_contract(intcall.check_update_timestep(reg, src, prop))
     R.under_contract(intcall.check_implicit_aware(reg, src, prop))
+    keep = constructor_keep_keys(R, reg, src, prop)
     for implicit, adaptive in ((False, False), (False, True), (True, False), (True, True)):
-        R.under_contract(intcall.check_rk_call(reg, src, prop, implicit, adaptive))
+        for kk in sorted(keep.get(implicit, {None}), key=lambda x: sorted(x) if x else []):
+            R.under_contract(intcall.check_rk_call(reg, src, prop, implicit, adaptive, keep=kk))
     R.under_contract(intcall.check_symplectic_call(reg, src, prop))
     R.under_contract(intcall.check_richardson_call(reg, src, prop))
 
